@@ -1,2 +1,3 @@
 import PyOak.Props.C12
 import PyOak.Props.C12Extra
+import PyOak.Props.C12MI
